@@ -343,6 +343,11 @@ func genLT(cfg *config, r *rng, i int, s *sink) string {
 	if laps*pad > 400000 {
 		pad = 100
 	}
+	if r.chance(1, 12) {
+		// one line longer than any buffer on the way (64 KiB and more), with document left after it
+		laps, pad = pick(r, []int{2, 3, 5}), pick(r, []int{66000, 70000, 150000})
+		s.count("lt.long_line")
+	}
 	gz := r.chance(1, 3)
 	k := "-"
 	if r.chance(5, 6) {
@@ -410,6 +415,8 @@ func corpusLT(cfg *config) []string {
 		ops = append(ops, fmt.Sprintf("run laps=40 pad=3000 k=%d gz=1 procs=4 yield=0", k))
 	}
 	ops = append(ops, "run laps=400 pad=40 k=3 gz=0 procs=1 yield=0")
+	// a line longer than 64 KiB with document left after it, plain and compressed
+	ops = append(ops, "run laps=3 pad=70000 k=- gz=0 procs=2 yield=0", "run laps=3 pad=70000 k=- gz=1 procs=1 yield=0", "run laps=2 pad=150000 k=5 gz=0 procs=4 yield=1")
 	// documents that cannot be marshalled to the end, on a slow working output and on failing ones
 	for _, laps := range []int{0, 40, 60} {
 		ops = append(ops, fmt.Sprintf("run laps=%d pad=10 k=- gz=0 procs=2 yield=0 mf=1 slow=1 ek=inj", laps))
